@@ -142,6 +142,16 @@ class SymDomain(ConcDomain):
         return ConcDomain.abs_binop(self, op, a, b, e, fr)
 
     # ---------------------------------------------------------------- arrays
+    def clone_arr(self, x):
+        if isinstance(x, SArr):
+            a = SArr(x.name, x.length, gen=x.gen, elem=x.elem, zero=x.zero)
+            a.sym = dict(x.sym)
+            return a
+        a = ConcDomain.clone_arr(self, x)
+        if hasattr(x, "objs"):
+            a.objs = x.objs
+        return a
+
     def index(self, base, idx, e, fr):
         if isinstance(base, Arr) and base.elem == "obj":
             return base.objs[idx]
